@@ -209,8 +209,17 @@ def _check(ctx, vtag, ver, cls, where, co, opc, ref_ls, ref_starts, ref_colines)
         ctx.violation("%s:starts_line:%s" % (vtag, cls), "starts_line pairs %s, CPython %s (%s)" % (got[:6], want_s[:6], where))
     if ref_colines is not None and hasattr(co, "co_lines"):
         try:
-            gl = [tuple(x) for x in co.co_lines()]
-            wl = [tuple(x) for x in ref_colines]
+            def per_unit(ranges):
+                # 3.10 and 3.12+ merge neighbouring ranges of one line, 3.11 reports one range per table entry: the
+                # statement is about the line of each code unit, so ranges are compared expanded (as in C17)
+                out = {}
+                for (a, b, line) in ranges:
+                    for u in range(a, b, 2):
+                        out[u] = line
+                return sorted(out.items())
+
+            gl = per_unit([tuple(x) for x in co.co_lines()])
+            wl = per_unit([tuple(x) for x in ref_colines])
             if gl != wl:
                 ctx.violation("%s:co_lines:%s" % (vtag, cls), "co_lines() %s, CPython %s (%s)" % (gl[:5], wl[:5], where))
         except Exception as e:
